@@ -171,6 +171,12 @@ loop:
 		}
 	}
 
+	// Only the first entry of an archive (its root) has no filename. An unnamed
+	// entry anywhere else would stand for (and replace) the current directory.
+	if name == "" && a.seen {
+		return nil, InvalidFormat{"entry without filename"}
+	}
+
 	// If it doesn't have a payload or is a device/symlink, it must be a directory
 	a.seen = true
 	if payload == nil && device == nil && symlink == nil {
